@@ -1,5 +1,6 @@
 """C03 - parser instances are isolated; evaluation is re-entrant and thread-independent."""
 import sys
+import datetime
 import threading
 import time
 
@@ -18,9 +19,9 @@ ASSUMPTIONS = ['interleavings are explored at the granularity of Python line eve
 # ---------------------------------------------------------------- parsers with distinguishable bindings
 
 BIND = {
-    'A': {'v_a': 4, 'v_s': 'sa', 'v_l': [1, 2, 3]},
-    'B': {'v_a': 40, 'v_s': 'sb', 'v_l': [10, 20, 30]},
-    'C': {'v_a': 400, 'v_s': 'sc', 'v_l': [100, 200]},
+    'A': {'v_a': 4, 'v_s': 'sa', 'v_l': [1, 2, 3], 'v_d': datetime.datetime(2019, 11, 20, 6, 30)},
+    'B': {'v_a': 40, 'v_s': 'sb', 'v_l': [10, 20, 30], 'v_d': datetime.datetime(2024, 2, 29)},
+    'C': {'v_a': 400, 'v_s': 'sc', 'v_l': [100, 200], 'v_d': datetime.datetime(1999, 12, 31, 23, 59, 59)},
 }
 CELLBASE = {'A': 1, 'B': 1000, 'C': 100000}
 HOOKS = [['call', 'H', None], ['cell', 'X9'], ['var', 'v_hook'], ['range', 'X1', 'Y2'], ['call', 'HOOKED', None]]
@@ -346,7 +347,8 @@ def run_threads(formulas, quanta):
 # Alone it gives the same outcome on any stack; it tells when an interpreter-wide setting is changed under a running evaluation.
 DEEP = '1+' + '{' * 650 + '1' + '}' * 650 + '+1'
 thread_formula = st.one_of(trees(False, 6).map(gf.render), st.sampled_from(['SUM(1,2,3)*4+A1', '10-3-2', '"a"&"b"&"c"', 'IF(1<2,"x","y")', '{1,2;3,4}', '1+', 'nosuch+1', 'MAX(A1:B2)-MIN(A1:B2)', 'CONCATENATE(v_s,1,2)', 'v_a*v_a-1',
-                                                                                     'ROUND(2.5,0)&ROUND(0.125,2)&ROUND(1250.0,-2)', 'ROUND(3.5,0)+ROUND(-2.5,0)', 'TEXT(2.5,"0")&UPPER("x")']))
+                                                                                     'ROUND(2.5,0)&ROUND(0.125,2)&ROUND(1250.0,-2)', 'ROUND(3.5,0)+ROUND(-2.5,0)', 'TEXT(2.5,"0")&UPPER("x")',
+                                                                                     'YEAR(DATE(2019,11,20)+45)&(DATE(2019,11,20)>DATE(2019,1,1))', 'DATE(2020,2,29)-DATE(2019,2,28)', 'v_d+1>v_d', 'DAYS(v_d,DATE(2000,1,1))']))
 thread_case = st.fixed_dictionaries({'f': st.tuples(st.lists(thread_formula, min_size=1, max_size=4), st.lists(thread_formula, min_size=1, max_size=4)).map(list),
                                      'quanta': st.lists(st.one_of(st.integers(1, 60), st.integers(1, 400)), min_size=1, max_size=60)})
 
@@ -618,12 +620,14 @@ op_s = st.one_of(
     st.tuples(st.just('off'), st.sampled_from(['callCellValue', 'callRangeValue', 'callVariable', 'callFunction'])),
     st.tuples(st.just('parse'), st.sampled_from(['v_only+1', 'ONLYA(1)', 'B2', 'A1:B2', 'SUM(1,2)', 'TRUE', '1+', 'PI()', 'TRUE()+NA()', 'ONLYA()'])),
     st.tuples(st.just('on_mutating'), st.sampled_from(['callFunction'])),
+    st.tuples(st.just('host_error'), st.sampled_from(['#N/A', '#DIV/0!', '#VALUE!', '#NAME?']), st.sampled_from(['return', 'raise'])),
 ).map(list)
-PROBES = ['v_only', 'v_new', 'v_a', 'TRUE', 'ONLYA(1)', 'MY.FN(1)', 'SUM(1,2)', 'ID(3)', 'B2', 'A1:B2', 'ISBLANK(B2)', 'v_only+ONLYA(2)', 'PI()>3', 'TRUE()', 'IF(TRUE(),1,2)']
+PROBES = ['v_only', 'v_new', 'v_a', 'TRUE', 'ONLYA(1)', 'MY.FN(1)', 'SUM(1,2)', 'ID(3)', 'B2', 'A1:B2', 'ISBLANK(B2)', 'v_only+ONLYA(2)', 'PI()>3', 'TRUE()', 'IF(TRUE(),1,2)',
+          'NA()', '1/0', '"a"+1', 'IFERROR(NA(),5)', 'ERROR.TYPE(1/0)']
 
 
 PROBE_WANT = [(None, '#NAME?'), (None, '#NAME?'), (40, None), (True, None), (None, '#NAME?'), (None, '#NAME?'), (3, None), (None, '#NAME?'), (None, None), (None, None), (True, None), (None, '#NAME?'),
-              (True, None), (True, None), (1, None)]
+              (True, None), (True, None), (1, None), (None, '#N/A'), (None, '#DIV/0!'), (None, '#VALUE!'), (5, None), (2, None)]
 
 
 def check_bindings(case):
@@ -648,6 +652,16 @@ def check_bindings(case):
         elif op[0] == 'on_mutating':
             # a journalling listener that edits the argument list it is handed (its own business - but nobody else's)
             A.on(op[1], lambda name, args, setter: args.insert(0, name))
+        elif op[0] == 'host_error':
+            # a callback of A builds an error of its own with a canonical code and a detail for its log, and returns or raises it
+            def herr(code=op[1], how=op[2]):
+                e = hot_.formulas.error.XLError(code, 'no customer 17')
+                if how == 'raise':
+                    raise e
+                return e
+            A.set_function('HERR', herr)
+            A.parse('HERR()')
+            A.parse('IFERROR(HERR(),1)')
         elif op[0] == 'off':
             A.off(op[1])
         else:
@@ -696,7 +710,7 @@ LAWS = [
              'every outcome equals the value computed from the coordinates *written in the formula* by the reference label parser, and every cell handed to a listener has a label that re-parses to its own coordinates - an oracle that shares no state with the library'),
     Law('binding_isolation', check_bindings, strategy=st.fixed_dictionaries({'ops': st.lists(op_s, min_size=1, max_size=10), 'order': st.sampled_from(['A-first', 'B-first'])}),
         quick=1500, thorough=60000, shards=(8, 16), nontrivial=lambda c: len(c['ops']) >= 2,
-        rule='1-10 registrations on parser A (set_variable incl. TRUE, set_function incl. SUM, on/once/off for the four events, evaluations): after each, parser B gives the outcomes of an untouched parser for 12 probe formulas and holds none of A\'s variables, functions or listeners'),
+        rule='1-10 registrations on parser A (set_variable incl. TRUE, set_function incl. SUM, on/once/off for the four events, evaluations, a callback that builds an error object of its own): after each, parser B gives the outcomes of an untouched parser for 20 probe formulas and holds none of A\'s variables, functions or listeners'),
 ]
 
 LEVEL_TEXT = 'Hypothesis exploration of re-entrant evaluation (generated interposition points, depth 2, both parsers / same parser, both construction orders) and of thread interleavings under a harness-owned, replayable schedule at Python-line granularity, with solo evaluation as the oracle (a blocked evaluation is told from a slow one and reported); an enumerated law with an operand near the recursion limit of the interpreter; brand-new interpreter processes whose first evaluations are made by several threads at once; free-running thread stress in the thorough tier.'
